@@ -219,3 +219,11 @@ package certs
 //@   proves err == nil ==> out != nil && out.Type == certType && out.Parent == parent.Fingerprint && out.PublicKey == child.PublicKey && out.Version == certs.Version
 //@   proves err == nil ==> same(out.IssuedAt, issuedAt) && valid(parent, issuedAt)
 //@   proves err == nil ==> !before(parent.ExpiresAt, out.ExpiresAt)
+
+// (C10) Name.String panics for a name type it does not know: callers on paths fed by the peer (the type byte of an SNI or
+// of an id block is peer-controlled) must not call it without having checked the type - a precondition checked at
+// every call site in the verified code.
+//@ func (name *Name) String() (s string)
+//@   property C10
+//@   pure
+//@   requires name.Type == certs.TypeDNSName || name.Type == certs.TypeIPv4Address || name.Type == certs.TypeIPv6Address || name.Type == certs.TypeRaw
